@@ -154,6 +154,7 @@ func c02(tier string) []*explore.Scenario {
 		m.SelectCost = true
 		out = append(out, m)
 	}
+	out = append(out, apiSeqs("C02", tier)...)
 	return out
 }
 
